@@ -746,7 +746,7 @@ class C01(Property):
                 ['addlist', 1, 'i', [1, 0]], ['poplast', 0, 0], ['poplast', -1, 0], ['popitem'], ['pop', 1, 1],
                 ['sd', 1, 0], ['upd', ['p', 'l', [[1, 1], [0, 0], [1, 0]]], []], ['upd', ['t'], []],
                 ['ext', ['s'], []], ['cp', 'cc', 't'], ['swap'], ['upd', ['m', [[0, 0], [1, 1]]], []],
-                ['upd', ['mx', [[1, 0], [0, 1]]], []], ['it', 1], ['drain']]
+                ['upd', ['mx', [[1, 0], [0, 1]]], []]] + ([] if self.thorough else [['it', 1], ['drain']])
 
     def _mk(self, ops, i=0, u=None):
         u = u or ('S', 'I', 'S', 'N', 'F')[i % 5]
